@@ -7,6 +7,9 @@ GROUPS = [
           unwind=53, checks=CH, timeout=900,
           note="command line bounded to argc <= 5 and 7-character arguments (complete by unwinding assertions for that bound); program text unbounded (assemble() is a contract)"),
 ]
+GROUPS.append(Group(name="C12/assemble", unity="C12/u_assemble.cpp", entry="h_assemble",
+                    functions=[("AsmContext::assemble", "core/AsmContext.cpp", "harness+loop-contracts, unbounded statement stream"), ("AsmContext::directive", "core/AsmContext.cpp", "real callee")],
+                    loops="C12/assemble.loops.json", expected_loops=2, unwind=10, checks=CH, timeout=900))
 import C13 as _c13
 GROUPS.append(Group(name="C12/init_keeps_errors", unity="C13/u_ctx.cpp", entry="h_init_between_passes", functions=_c13.CTXF[1:5], unwind=4, checks=CH, timeout=600))
 LEVEL = "proof"
